@@ -44,7 +44,7 @@ Clauses(t) ==
       c9 == IF c8 = {} /\ c1 = {} /\ realBad # {} THEN {<<"real-coordinate-projections-violate-the-model", Cardinality(realBad)>>} ELSE {}
   IN c0 \cup c1 \cup c2 \cup c3 \cup c4 \cup c5 \cup c6 \cup c7 \cup c8 \cup c9
 \* the clauses are computed in a step (not in the initial predicate) so that TLC's workers share the traces
-TInit == tid \in 1..Len(Traces) /\ bad = {} /\ phz = 0 /\ d = 1 /\ np = 2 /\ blocks = <<>> /\ hist = <<>> /\ rets = <<>>
-TNext == phz = 0 /\ bad' = Clauses(Traces[tid]) /\ phz' = 1 /\ UNCHANGED <<tid, d, np, blocks, hist, rets>>
+TInit == tid \in 1..Len(Traces) /\ bad = {} /\ phz = 0 /\ d = 1 /\ np = 2 /\ blocks = <<>> /\ hist = <<>> /\ rets = <<>> /\ ctor = 1
+TNext == phz = 0 /\ bad' = Clauses(Traces[tid]) /\ phz' = 1 /\ UNCHANGED <<tid, d, np, blocks, hist, rets, ctor>>
 Report == phz = 1 => PrintT(ToJson(<<"V", tid, bad>>))
 =============================================================================
